@@ -1,6 +1,7 @@
 package c06
 
 import (
+	"errors"
 	"runtime"
 	"strings"
 	"sync"
@@ -14,6 +15,8 @@ import (
 // verif): every meta page of a consumer group (path .../cg/<name>) is wrapped so that one chosen
 // PutUint64 can be parked. Pages of the queue itself are not wrapped.
 
+var errInjected = errors.New("injected: too many open files")
+
 type gate struct {
 	match   string // substring of the page factory's path
 	hit     chan struct{}
@@ -23,9 +26,26 @@ type gate struct {
 }
 
 var (
-	gateMu  sync.Mutex
-	curGate *gate
+	gateMu     sync.Mutex
+	curGate    *gate
+	faultMatch string // one-shot: the next page factory whose path matches fails to open
+	faultFired bool
 )
+
+// armFault makes the next construction of a page factory under a matching path fail once.
+func armFault(match string) {
+	gateMu.Lock()
+	faultMatch, faultFired = match, false
+	gateMu.Unlock()
+}
+
+// disarmFault reports whether the fault fired.
+func disarmFault() bool {
+	gateMu.Lock()
+	defer gateMu.Unlock()
+	faultMatch = ""
+	return faultFired
+}
 
 func armGate(match string) *gate {
 	g := &gate{match: match, hit: make(chan struct{}, 1), release: make(chan struct{})}
@@ -98,6 +118,13 @@ func (p *gatedPage) PutUint64(value uint64, offset int) {
 // installSeam wraps the meta page factories of consumer groups; returns the restore function.
 func installSeam() func() {
 	return queue.VerifC05SetPageFactory(func(path string, pageSize int) (page.Factory, error) {
+		gateMu.Lock()
+		if faultMatch != "" && strings.Contains(path+"/", faultMatch) {
+			faultMatch, faultFired = "", true
+			gateMu.Unlock()
+			return nil, errInjected
+		}
+		gateMu.Unlock()
 		f, err := page.NewFactory(path, pageSize)
 		if err != nil || !strings.Contains(path, "/cg/") {
 			return f, err
